@@ -65,7 +65,11 @@ def worker(kp, job):
     viol = []
     # ---- against the source text
     pre, body, post = expected_order(text)
-    allt = doc.get_all_tokens()
+    allt0 = doc.get_all_tokens()
+    allt = list(allt0)
+    if idx % 2 == 1:
+        # the caller owns the returned list: emptying or reordering it must not show in any later query
+        rng.choice([allt0.clear, allt0.reverse, lambda: allt0.pop() if allt0 else None])()
     nodes_by_pos = {}
     for si, stage in enumerate(doc.tree.stages):
         for pi, nd in enumerate(stage):
@@ -148,6 +152,31 @@ def worker(kp, job):
                     viol.append(('metacomments-key', f'get_metacomments({key!r}, clear=True) = {c1}, then {c2}; expected {wantc}', {'text': text, 'key': key}))
             except Exception as e:
                 viol.append(('query-raises', f'get_metacomments({key!r}, clear=True) raised {type(e).__name__}', {'text': text, 'key': key}))
+        if idx % 2 == 1:
+            # ... the same for every other listing: edit what was returned, ask again, the answers are the same
+            saved = ([id(t) for t in lst], [id(t) for t in uni], list(enc), list(mc), {k: dict(v) for k, v in fr.items()})
+            how = rng.randrange(3)
+            for res in (lst, uni, enc, mc):
+                if how == 0:
+                    res.clear()
+                elif how == 1:
+                    res.reverse()
+                elif res:
+                    res.pop(rng.randrange(len(res)))
+            fr.clear()
+            try:
+                again = ([id(t) for t in doc.get_all_tokens(filter_by_categories=fa)], [id(t) for t in doc.get_unique_tokens(filter_by_categories=fa)],
+                         list(doc.get_all_tokens_encodings(filter_by_categories=fa)), list(doc.get_metacomments(key)),
+                         {k: dict(v) for k, v in doc.frequencies(fa).items()})
+                names = ['get_all_tokens', 'get_unique_tokens', 'get_all_tokens_encodings', 'get_metacomments', 'frequencies']
+                for nm, a, b in zip(names, saved, again):
+                    if a != b:
+                        viol.append(('listing-order', f'edited-result: filter {f}: after the caller edited the returned results, {nm} answers differently on the same document', {'text': text, 'filter': f}))
+                        break
+                if kp.is_monophonic(doc) != mono:
+                    viol.append(('monophonic', f'edited-result: is_monophonic changed after the caller edited returned listings', {'text': text}))
+            except Exception as e:
+                viol.append(('query-raises', f'edited-result: a query raised {type(e).__name__} after the caller edited returned listings (filter {f})', {'text': text, 'filter': f}))
         nkern = sum(1 for h in g.headers if h == '**kern')
         want_mono = (nkern == 1 and not any(type(t).__name__ == 'ChordToken' for t in allt)
                      and any(type(t).__name__ == 'NoteRestToken' for t in allt))
